@@ -118,6 +118,18 @@ fn base_config(r: &mut Rng, id: &str) -> SimConfig {
                 mask: [None, Some("*!*@10.0.0.2".to_string()), Some("*!*@10.9.9.9".to_string()), Some("bob!*@*".to_string())][r.below(4)].clone(),
             });
         }
+        // further configured users with different settings (who is who must not get mixed up)
+        if r.chance(1, 2) {
+            cfg.users.push(UserCfg {
+                name: ["u2", "guest", "u0"][r.below(3)].into(),
+                nick: "cat".into(),
+                password: if r.chance(1, 2) { Some("otherpass".into()) } else { None },
+                mask: [None, None, Some("*!*@10.0.0.*".to_string()), Some("*!*@10.8.8.8".to_string())][r.below(4)].clone(),
+            });
+            if r.chance(1, 3) {
+                cfg.users.push(UserCfg { name: "u3".into(), nick: "dan".into(), password: Some("thirdpass".into()), mask: None });
+            }
+        }
     }
     cfg
 }
